@@ -197,7 +197,10 @@ RandFlavours == {"bytes", "ascii", "hexrec", "srec", "magicELF32", "magicELF64",
 RandLens     == {0, 1, 2, 3, 4, 7, 8, 15, 16, 20, 21, 40, 52, 64, 65, 128, 300, 1000}
 RandOps == { Op("rand", 0, n, 0, fl, i, "-") : fl \in RandFlavours, n \in RandLens, i \in Picked(P.nrand, P.qrand) }
 
-FaultOps(b) == IF b = 0 THEN RandOps ELSE SetOps(b) \cup TruncOps(b) \cup FlipOps(b)
+(* bases flagged intact = 1 (the generated HEX/SREC size family) are only run undamaged: they exist for NoMisclaim *)
+FaultOps(b) == IF b = 0 THEN RandOps
+               ELSE IF Bases[b].intact = 1 THEN {}
+               ELSE SetOps(b) \cup TruncOps(b) \cup FlipOps(b)
 
 TruthOf(b, o) == IF b > 0 /\ o = <<>> THEN Bases[b].truth ELSE "any"
 
@@ -211,12 +214,14 @@ MaxFaultsMC == 1
 (* gen: the fault sequences of a base. They are drawn in Init - all of them as initial states - because TLC does  *)
 (* not memoise FaultOps(b) between states: drawn by successive Corrupt steps the set would be rebuilt per state.   *)
 OpHash(x) == x.o + 7 * x.n + 13 * x.i
+PairHash(x, z) == (((OpHash(x) % 9973) * 211 + (OpHash(z) % 9973) * 389) % 9973)   \* offsets are mostly multiples of 4:
+                                                                                 \* mix modulo a prime before striding
 FaultSeqs(b) ==
   LET F == FaultOps(b) IN
   IF P.maxfaults = 1
   THEN (IF b > 0 THEN {<<>>} ELSE {}) \cup { <<x>> : x \in F }
   ELSE { <<x>> : x \in F }            \* the atoms of the pairs, alone (all of them, whatever the seed)
-       \cup UNION { { <<x, y>> : y \in {z \in F : (OpHash(x) + 3 * OpHash(z)) % P.psub = P.phase % P.psub} }
+       \cup UNION { { <<x, y>> : y \in {z \in F : PairHash(x, z) % P.psub = P.phase % P.psub} }
                     : x \in F }
 
 Init == /\ st = S0
